@@ -144,6 +144,10 @@ def elems(f, t, point, n=4, depth=0):
                 e[k] = ("unknown", "mod:" + tail)
             return e
         return [("unknown", "mod:" + tail)] * n
+    if t[0] == "loopphi":
+        r = _loop_updated_elems(f, t, point, n, depth)
+        if r is not None:
+            return r
     if t[0] == "phi":
         cols = [elems(f, o, point, n, depth + 1) for o in t[2]]
         out = []
@@ -211,3 +215,67 @@ def _project(f, b, pj):
         return b[2] if b[0] == "ref" else ("proj", b, pj)
     r = f._proj1(b, pj)
     return r
+
+
+def _loop_updated_elems(f, t, point, n, depth):
+    """elements of a tuple that an inner loop updates in place at induction indices `for j in a..b { c[j] = .. }`:
+    the elements outside a..b are those of the value the loop started from; the others are unknown"""
+    d = f.phi_def(t)
+    if d is None or d[0] != "phi":
+        return None
+
+    def mentions(x):
+        hit = []
+
+        def v(y):
+            if y == t:
+                hit.append(1)
+                return False
+            return not hit
+        mir.walk(x, v)
+        return bool(hit)
+    entry = [o for o in d[2] if not mentions(o)]
+    latch = [o for o in d[2] if mentions(o)]
+    if len(entry) != 1 or not latch:
+        return None
+    touched = set()
+
+    def leaves(x, k=0):
+        if x[0] == "phi" and k < 12:
+            out = []
+            for o in x[2]:
+                out.extend(leaves(o, k + 1))
+            return out
+        return [x]
+    from rules.decoder import loop_bounds
+    for o in latch:
+        for lf in leaves(o):
+            if lf == t:
+                continue
+            x = lf
+            while x[0] == "upd":
+                path = x[2]
+                if path is None:
+                    return None
+                p = list(path)
+                if p and p[0] == ("f", 0):
+                    p = p[1:]
+                if len(p) != 1 or p[0][0] != "elem":
+                    return None
+                if len(p[0]) == 2 and p[0][1] is not None:
+                    touched.add(p[0][1])
+                elif len(p[0]) == 3:
+                    lb = loop_bounds(f, p[0][2])
+                    if lb is None:
+                        return None
+                    (lc, lo), (hc, hi) = lb
+                    if lc or hc:
+                        return None
+                    touched |= set(range(int(lo), int(hi)))
+                else:
+                    return None
+                x = x[1]
+            if x != t:
+                return None
+    base = elems(f, entry[0], point, n, depth + 1)
+    return [("unknown", "loop-updated") if k in touched else base[k] for k in range(n)]
